@@ -6,7 +6,7 @@ import ast
 from sa.engine.facts import F
 from sa.engine.pattern import P, u
 from sa.engine.source import norm, own_walk
-from .common import A, writer_table
+from .common import A, writer_table, classifier_total
 from .scope_exit import scope_exit_filter
 from .walkers import all_walkers
 
@@ -90,6 +90,8 @@ def check(ctx):
         ok = bool(fa) and all(any(k.endswith(f".startswith({prefix!r})") and p for k, p in x) for x in fa)
         ctx.ob("R04-d", isa, "the verdict True requires the prefix match", ok,
                detail="" if ok else "`return True` reachable without the prefix test having succeeded", node=r, by=("startswith fact",))
+
+    classifier_total(ctx, "R04-d")
 
     # ---- R04-e visibility definition ---------------------------------------------------------------------------------
     vis = ctx.fn("CancelScope._parent_cancellation_is_visible_to_us", A)
